@@ -56,6 +56,7 @@ type World struct {
 	Tags    string
 	structKeys map[*types.Named]string
 	wfReads    map[string]bool
+	TrustedAxioms []string
 }
 
 func pkgShort(p *types.Package) string {
